@@ -76,8 +76,8 @@ Definition infos_wf (l : list info) : Prop := infos_wf_from (len l) 0 l.
 
 (* ---- lookup types 1 and 2 as scans *)
 (* type 1: every glyph the lookup does not skip gets the record of the first subtable covering it *)
-Definition singlepos_spec (m : mode) (mt : match_type) (gd : option gdef) (subs : list single_pos) (x : info) : outcome info :=
-  if match_glyph mt gd (i_id x) then singlepos m subs x else Ok x.
+Definition singlepos_spec (mt : match_type) (gd : option gdef) (subs : list single_pos) (x : info) : outcome info :=
+  if match_glyph mt gd (i_id x) then singlepos subs x else Ok x.
 
 Fixpoint map_out {A B} (f : A -> outcome B) (l : list A) : outcome (list B) :=
   match l with
